@@ -284,6 +284,7 @@ def mutate(t, o, mu, n):
 
 
 MUTABLE = {"enfa", "dfa", "pda", "fst"}
+BUDGET_S = 6.0
 
 
 # ------------------------------------------------------------------ the replay
@@ -330,7 +331,7 @@ class Heap:
 
 
 def _guarded(fn):
-    r = guard.call(fn, timeout=6.0)
+    r = guard.call(fn, timeout=3.0)
     if r[0] == "ok":
         return r[1], None
     return None, (r[1] if r[0] == "exc" else "Timeout")
@@ -339,9 +340,15 @@ def _guarded(fn):
 def run_history(roots, hist, result_types):
     """roots: [(type, catalog index), (type, catalog index)]; hist: list of dicts from ValueSemantics;
     result_types: id -> type for the objects the history allocates.  Returns the list of events."""
+    import time
     h = Heap(roots)
     evs = [{"k": "init", "snaps": h.snaps(), "roots": [list(r) for r in roots]}]
+    t0 = time.time()
     for step in hist:
+        if time.time() - t0 > BUDGET_S:
+            # the whole history has a time budget (objects grow with every conversion); what was replayed is judged
+            evs.append({"k": "init", "op": "budget", "snaps": h.snaps(), "inconclusive": "history budget"})
+            break
         k, o, op = step["k"], step["o"], step["op"]
         ev = {"k": k, "o": o, "op": op, "kop": op}
         t = h.typ[o]
